@@ -64,6 +64,11 @@ def run(ctx, replay):
         for s in chosen:
             for sc in scripts(rng, full=len(s) <= 1 or not quick):
                 steps.append({"layers": s, "script": sc})
+        # the same stacks on a response writer that cannot be hijacked (in-memory recorder), with a handler that tries to
+        # take the connection over and answers normally when that fails
+        for s in [x for x in chosen if len(x) <= 2] + rng.sample(deep, 60 if quick else 600):
+            sc = dict(rng.choice(scripts(rng, full=True)), hijack=False, flush=False, tryhijack=True)
+            steps.append({"layers": s, "script": sc, "via": "recorder"})
         scs = [{"id": "stacks-%d" % i, "cfg": {}, "steps": steps[i:i + 200]} for i in range(0, len(steps), 200)]
     tp = vlib.run_scenarios(ctx, "stack", scs, "c20", hang_s=60)
     res = vlib.validate_trace(ctx, "Trace_Stack", tp, "c20")
